@@ -22,20 +22,33 @@ from vlib import sched as S
 from vlib.hyp import (Failure, Outcome, Stats, search, derive_seed,
                       case_hash)
 
-RULE = ('case = (program, schedule, tail). program: solver thread doing >= '
-        'min_cp (1-6) control points and going on until all interface '
-        'threads are done (+1 draining control point); 1-2 interface threads '
-        'with 1-6 drawn ops each out of get / set (immediate) / qset, '
-        'qnames, qgnpa (non-blocking, queued) / result (get_result of an id '
-        'that thread obtained, once) / status / pause (pause_on_next) / wait '
-        '/ cont; wait and cont only inside the thread\'s own pause block, at '
-        'most one wait per block, every block closed by exactly one cont. '
+RULE = ('case = (program, schedule, tail). program: solver thread that adds '
+        '1-3 interface threads through add_interface (blocking or '
+        'non-blocking, before the first or after the k-th control point), '
+        'steps its counter and executes a control point whenever count % '
+        'command_interval == 0 (interval 1-3, may be changed by an '
+        'interface) until >= min_cp (1-6) control points are done and all '
+        'interface threads have finished (+1 draining control point). '
+        'Interface threads run 1-6 drawn ops each. Core ops: get / set '
+        '(immediate) / qset, qnames, qgnpa (non-blocking, queued) / result '
+        '(get_result of an id that thread obtained, once) / status / pause '
+        '(pause_on_next) / wait / cont. Rich programs (odd rand shards) add '
+        'the rest of the Controller API: get_<prop> / set_<prop> wrappers '
+        '(getn, setn, qsetn), blocking array commands (bnames, bgnpa), '
+        'queued get_particle_array_from_procs / _combined (qprocs, qcomb), '
+        'get_named_particle_array without props and with an unknown name, '
+        'get_task_lock polling (tasklock), ping, get_prop_names, '
+        'get_blocking, set of command_interval (setci), get / set of an '
+        'unknown property (rejected by the dispatcher), a repeated wait '
+        'inside a pause block. wait and cont only inside the thread\'s own '
+        'pause block, every block closed by exactly one cont. '
         'schedule: list of ints, one consumed (mod #runnable) at each '
         'scheduling point with > 1 runnable thread, then tail policy '
         'round-robin or stay-until-blocked. DFS shards enumerate every '
-        'schedule with <= K preemptions (quick K=3 / K=1 on the fixed one- / '
-        'two-interface programs CANON, thorough K=4 / K=2-3 there and '
-        'K=3 on drawn programs of <= 8 ops). Non-trivial = another '
+        'schedule with <= K preemptions on the fixed programs CANON (K per '
+        'program and tier in CANON_BOUND; in quick every enumeration must '
+        'complete) and in thorough K=3 on drawn programs of <= 8 ops. '
+        'Non-trivial = another '
         'thread ran between a pause_on_next returning and the matching '
         'wait() registering on the condition (or returning without having '
         'to), or one interface thread blocked on a lock held by the other; '
@@ -46,21 +59,46 @@ ASSUMPTIONS = [
     'FIFO order as CPython does',
     'serial run (DummyComm); wait/cont are documented as unsupported in '
     'parallel',
-    'well-formed protocol use only: pause_on_next, optional single wait, '
-    'exactly one cont, all by the same thread; get_result once per id by the '
-    'thread that queued it; queued commands and get_result are allowed '
-    'inside a pause block (wait_for_cmd exists to serve them)',
+    'well-formed protocol use only: pause_on_next, wait (any number of '
+    'times), exactly one cont, all by the same thread; get_result once per '
+    'id by the thread that queued it; get_task_lock only for an id whose '
+    'result was not fetched yet; queued commands and get_result are allowed '
+    'inside a pause block (wait_for_cmd exists to serve them); no command '
+    'is issued after the solver has stopped; an interface never exits '
+    'inside a pause block',
+    'the property quantifies over one or two interface threads; three are '
+    'generated as well (the statement does not depend on the number)',
+    'blocking mode executes the command inside the call, in the calling '
+    'thread (what the code has always done); only queued commands are '
+    'required to run at a control point',
+    'commands whose Python meaning is an exception in the solver thread '
+    '(array index out of range, ...) are not generated; two call forms '
+    'that fail on the unchanged tree (Controller.dump_output, default '
+    'procs of the *_from_procs / *_combined commands in a serial run) are '
+    'replaced by construction and counted under excluded:*',
     'the solver keeps executing control points while an interface thread can '
     'still act; it stops after two consecutive control points during which '
     'every unfinished interface thread stayed blocked (then reported as a '
     'deadlock of those threads)',
+    'the XML-RPC / multiprocessing wrappers of solver_interfaces.py need '
+    'sockets and are not driven; task ids are checked to be decimal strings '
+    '(what XML-RPC can marshal)',
     'runs longer than 4000 scheduling points are inconclusive (none seen)',
 ]
-ESSENTIAL_LABELS = {'all': ['nt:switch_pause_wait', 'nt:iface_contention',
-                            'threads:2', 'two_paused', 'op:result',
-                            'pause_without_wait', 'op:wait',
-                            'cmd_run_while_paused', 'result_in_pause_block',
-                            'tail:rr', 'tail:stay', 'dfs:complete']}
+_ESS = ['nt:switch_pause_wait', 'nt:iface_contention',
+        'threads:2', 'two_paused', 'op:result',
+        'pause_without_wait', 'op:wait',
+        'cmd_run_while_paused', 'result_in_pause_block',
+        'tail:rr', 'tail:stay', 'dfs:complete',
+        # classes added by the coverage audit
+        'threads:3', 'block0:false', 'late_iface', 'interval>1',
+        'step_without_cp_in_pause_block', 'wait_twice',
+        'tasklock:available', 'tasklock:pending', 'op:badget', 'op:badset',
+        'op:qbadset',
+        'op:getn', 'op:setn', 'op:qsetn', 'op:bnames', 'op:bgnpa',
+        'op:qprocs', 'op:qcomb', 'op:setci', 'op:getblk', 'xmlrpc_iface',
+        'op:listmethods']
+ESSENTIAL_LABELS = {'all': _ESS, 'thorough': _ESS}
 EXHAUSTIVE = {'quick': False, 'thorough': False}
 SHARD_TIMEOUT = {'quick': 600, 'thorough': 4 * 3600}
 
@@ -91,6 +129,27 @@ CANON = {
     'pause-vs-queue': dict(min_cp=2, ifaces=[
         [['pause'], ['wait'], ['get', 'dt'], ['cont']],
         [['qset', 'dt', 201], ['result', 0]]]),
+    # a second pause block of the same thread (stale state of the first)
+    'pause-twice': dict(min_cp=1, ifaces=[
+        [['pause'], ['wait'], ['cont'], ['pause'], ['wait'], ['cont']]]),
+    'wait-wait': dict(min_cp=1, ifaces=[
+        [['pause'], ['wait'], ['wait'], ['cont']]]),
+    # polling the task lock instead of blocking in get_result
+    'tasklock-poll': dict(min_cp=1, ifaces=[
+        [['qset', 'dt', 101], ['tasklock', 0], ['tasklock', 0],
+         ['result', 0]]]),
+    # control points skipped by command_interval while a pause is pending
+    'interval-pause': dict(min_cp=1, interval=2, ifaces=[
+        [['pause'], ['wait'], ['qcomb'], ['result', 0], ['cont']]]),
+    # an interface that starts non-blocking and one added while running
+    'nonblocking-late': dict(min_cp=1, block0=[False, True], late=[0, 1],
+                             ifaces=[
+        [['qsetn', 'dt', 101], ['result', 0]],
+        [['pause'], ['wait'], ['cont']]]),
+    'three-waits': dict(min_cp=1, ifaces=[
+        [['pause'], ['wait'], ['cont']],
+        [['pause'], ['wait'], ['cont']],
+        [['pause'], ['wait'], ['cont']]]),
 }
 
 
@@ -108,14 +167,18 @@ class StandInPA(object):
 
 
 class StandInSolver(object):
-    def __init__(self, log):
+    def __init__(self, log, interval=1):
         d = self.__dict__
         d['_log'] = None
         d['_logger'] = log
         d.update(t=0.0, tf=1.0, dt=0.1, count=0, pfreq=10, fname='f',
                  detailed_output=False, output_directory='o',
-                 command_interval=1)
-        d['_pas'] = [StandInPA('a', log), StandInPA('b', log)]
+                 command_interval=interval)
+        # two recording stand-ins and one real (empty-property) array: only
+        # a real ParticleArray can be combined (get_particle_array_combined)
+        from pysph.base.particle_array import ParticleArray
+        d['_pas'] = [StandInPA('a', log), StandInPA('b', log),
+                     ParticleArray(name='c', x=[0.0, 0.5, 1.0])]
 
     def arm(self):
         self.__dict__['_log'] = self._logger
@@ -126,10 +189,27 @@ class StandInSolver(object):
             self._log('particles_read')
         return self._pas
 
+    def dump_output(self):
+        if self._log:
+            self._log('dump')
+
     def __setattr__(self, k, v):
         if self._log:
             self._log('attr_set', name=k, val=v)
         self.__dict__[k] = v
+
+
+def canon_value(v):
+    """JSON-able, comparable form of what a controller call returned."""
+    if isinstance(v, (list, tuple)):
+        return [canon_value(x) for x in v]
+    if isinstance(v, StandInPA):
+        return 'PA:' + v.name
+    if isinstance(v, S.VLock):
+        return 'LOCK'
+    if type(v).__name__ == 'ParticleArray':
+        return 'RPA:%s:%d' % (v.name, v.get_number_of_particles())
+    return v
 
 
 _path = [None]
@@ -146,13 +226,79 @@ def controller_path():
 
 
 # ------------------------------------------------------------- well-formed
+# non-blocking calls that return a task id
+QKINDS = ('qset', 'qsetn', 'qnames', 'qgnpa', 'qdump', 'qprocs', 'qcomb')
+# of those, the ones that read solver.particles exactly once when they run
+QLAZY = ('qnames', 'qgnpa', 'qprocs', 'qcomb')
+# the same commands in blocking mode (executed inside the call)
+BLAZY = ('bnames', 'bgnpa')
+PLAIN = ('status', 'ping', 'propnames', 'getblk', 'qnames', 'qdump',
+         'dump', 'bnames', 'badget', 'badset', 'qbadset', 'pause', 'wait',
+         'cont')
+# Two input classes failed on the tree as audited on 2026-09-26 and were
+# repaired there (solver-method commands lacked the method name; the default
+# procs of the array commands read comm.size in a serial run): replays
+# replays/C18/solver_method_dispatch_*.json and default_procs_serial.json.
+# Nothing is excluded any more.
+EXCLUDED = ()
+PA_NAMES = ('a', 'b', 'zz')       # 'zz' does not exist: the command yields None
+# mode a call needs: True blocking, False non-blocking, None either
+NEEDS_MODE = dict(set=True, setn=True, setci=True, dump=True, bnames=True,
+                  bgnpa=True, badset=True, qbadset=False)
+for _k in QKINDS:
+    NEEDS_MODE[_k] = False
+MAX_IFACES = 3
+# results that XML-RPC cannot marshal (documented limit of XMLRPCInterface:
+# particle arrays, locks) or calls that need keyword arguments
+NOT_MARSHALLABLE = ('qprocs', 'qcomb', 'tasklock')
+# what the Controller docstring lists as available
+DOCUMENTED_METHODS = ('get', 'set', 'get_result', 'pause_on_next', 'wait',
+                      'cont')
+
+
+class RpcProxy(object):
+    """Calls the methods of the instance registered with an XMLRPCInterface
+    the way a client does, minus the socket: request marshalled, handed to
+    the server's dispatcher, response unmarshalled (a Fault is raised)."""
+
+    def __init__(self, server, sc):
+        self._server = server
+        self._sc = sc
+
+    def __getattr__(self, name):
+        if name.startswith('_'):
+            raise AttributeError(name)
+        import xmlrpc.client as xc
+
+        def call(*args):
+            req = xc.dumps(tuple(args), name, allow_none=True)
+            resp = self._server._marshaled_dispatch(req.encode())
+            if self._sc.aborted:
+                # the dispatcher swallows BaseException
+                raise S.SchedAbort()
+            return xc.loads(resp)[0][0]
+        return call
+
+
 def validate(case):
     if not (1 <= int(case['min_cp']) <= 6):
         raise ValueError('min_cp out of range')
-    if not (1 <= len(case['ifaces']) <= 2):
-        raise ValueError('1-2 interface threads')
-    for ops in case['ifaces']:
-        paused = waited = False
+    n = len(case['ifaces'])
+    if not (1 <= n <= MAX_IFACES):
+        raise ValueError('1-%d interface threads' % MAX_IFACES)
+    if not (1 <= int(case.get('interval', 1)) <= 3):
+        raise ValueError('command_interval out of range')
+    b0 = case.get('block0', [True] * n)
+    if len(b0) != n or any(b not in (True, False) for b in b0):
+        raise ValueError('block0: one bool per interface')
+    late = case.get('late', [0] * n)
+    if len(late) != n or any(not (0 <= int(x) <= 4) for x in late):
+        raise ValueError('late: one int in 0..4 per interface')
+    xml = case.get('xmlrpc', [False] * n)
+    if len(xml) != n or any(b not in (True, False) for b in xml):
+        raise ValueError('xmlrpc: one bool per interface')
+    for ii, ops in enumerate(case['ifaces']):
+        paused = False
         nq = 0
         fetched = set()
         for op in ops:
@@ -160,38 +306,68 @@ def validate(case):
             if k == 'pause':
                 if paused:
                     raise ValueError('nested pause')
-                paused, waited = True, False
+                paused = True
             elif k == 'wait':
-                if not paused or waited:
-                    raise ValueError('wait outside pause block / twice')
-                waited = True
+                if not paused:
+                    raise ValueError('wait outside pause block')
             elif k == 'cont':
                 if not paused:
                     raise ValueError('cont without pause')
                 paused = False
-            elif k in ('qset', 'qnames', 'qgnpa'):
-                nq += 1
-            elif k == 'result':
+            elif k in ('result', 'tasklock'):
                 if not (0 <= op[1] < nq) or op[1] in fetched:
-                    raise ValueError('get_result of an id not held')
-                fetched.add(op[1])
-            elif k in ('get', 'set'):
+                    raise ValueError('result / task lock of an id not held')
+                if k == 'result':
+                    fetched.add(op[1])
+            elif k in ('get', 'set', 'getn', 'setn', 'qset', 'qsetn'):
                 if op[1] not in PROPS:
                     raise ValueError('unknown property')
-            elif k != 'status':
+            elif k == 'setci':
+                if op[1] not in (1, 2, 3):
+                    raise ValueError('command_interval out of range')
+            elif k in ('qgnpa', 'bgnpa'):
+                if op[1] not in PA_NAMES:
+                    raise ValueError('array name')
+            elif k == 'qprocs':
+                if op[1] not in (0, 1) or op[2:] not in ([], ['default']):
+                    raise ValueError('array index / procs')
+            elif k == 'qcomb':
+                if op[1:] not in ([], ['default']):
+                    raise ValueError('procs')
+            elif k == 'listmethods':
+                if not xml[ii]:
+                    raise ValueError('listmethods is an XML-RPC call')
+            elif k not in PLAIN:
                 raise ValueError('unknown op %r' % (k,))
+            if xml[ii] and (k in NOT_MARSHALLABLE or (
+                    k in ('qgnpa', 'bgnpa') and op[1] != 'zz'
+                    and op[2] is None)):
+                raise ValueError('%s cannot go over XML-RPC' % k)
+            if k in QKINDS:
+                nq += 1
         if paused:
             raise ValueError('pause block never continued')
     return True
 
 
 def expected_result(op):
-    if op[0] == 'qset':
+    k = op[0]
+    if k in ('qset', 'qsetn'):
         return None
-    if op[0] == 'qnames':
-        return ['a', 'b']
-    if op[0] == 'qgnpa':
+    if k in ('qnames', 'bnames'):
+        return ['a', 'b', 'c']
+    if k in ('qgnpa', 'bgnpa'):
+        if op[1] == 'zz':
+            return None
+        if op[2] is None:
+            return 'PA:' + op[1]
         return ['%s.%s' % (op[1], op[2])]
+    if k in ('qdump', 'dump'):
+        return [None]
+    if k == 'qprocs':
+        return ['PA:' + 'ab'[op[1]]]
+    if k == 'qcomb':
+        return 'RPA:c:3'
     raise ValueError(op)
 
 
@@ -217,7 +393,7 @@ def run_one(case):
         kw['step'] = len(sc.order)
         events.append(kw)
 
-    solver = StandInSolver(log)
+    solver = StandInSolver(log, int(case.get('interval', 1)))
     cm = mod.CommandManager(solver)
     for k, v in vars(cm).items():
         if isinstance(v, S.VCondition):
@@ -226,10 +402,86 @@ def run_one(case):
             v.name = k
     solver.arm()
     ifaces = case['ifaces']
+    block0 = case.get('block0', [True] * len(ifaces))
+    late = [int(x) for x in case.get('late', [0] * len(ifaces))]
+    xml = case.get('xmlrpc', [False] * len(ifaces))
     ithreads = []
     ids = {}          # (thread name, q index) -> task id
     fetched = set()
     fatal = []
+
+    def do_op(ctrl, op, myq, st):
+        kind = op[0]
+        need = NEEDS_MODE.get(kind)
+        if need is not None and st['mode'] != need:
+            # no synchronisation inside: not a scheduling point
+            ctrl.set_blocking(need)
+            st['mode'] = need
+        if kind == 'get':
+            return ctrl.get(op[1])
+        if kind == 'getn':
+            return getattr(ctrl, 'get_' + op[1])()
+        if kind in ('set', 'qset'):
+            return ctrl.set(op[1], op[2])
+        if kind in ('setn', 'qsetn'):
+            return getattr(ctrl, 'set_' + op[1])(op[2])
+        if kind == 'setci':
+            return ctrl.set('command_interval', op[1])
+        if kind in ('qnames', 'bnames'):
+            return ctrl.get_particle_array_names()
+        if kind in ('qgnpa', 'bgnpa'):
+            if op[2] is None:
+                return ctrl.get_named_particle_array(op[1])
+            return ctrl.get_named_particle_array(op[1], [op[2]])
+        if kind in ('qdump', 'dump'):
+            return ctrl.dump_output()
+        if kind == 'qprocs':
+            if op[2:] == ['default']:       # see EXCLUDED
+                return ctrl.get_particle_array_from_procs(op[1])
+            return ctrl.get_particle_array_from_procs(op[1], [0])
+        if kind == 'qcomb':
+            if op[1:] == ['default']:       # see EXCLUDED
+                return ctrl.get_particle_array_combined(2)
+            return ctrl.get_particle_array_combined(2, procs=[0])
+        if kind == 'result':
+            r = ctrl.get_result(myq[op[1]])
+            fetched.add((st['name'], op[1]))
+            return r
+        if kind == 'tasklock':
+            lk = ctrl.get_task_lock(myq[op[1]])
+            if not isinstance(lk, S.VLock):
+                return ['notalock', repr(lk)]
+            return ['lock', not lk.locked()]
+        if kind == 'listmethods':
+            return getattr(ctrl, 'system.listMethods')()
+        if kind == 'status':
+            return ctrl.get_status()
+        if kind == 'ping':
+            return ctrl.ping()
+        if kind == 'propnames':
+            return sorted(ctrl.get_prop_names())
+        if kind == 'getblk':
+            return [ctrl.get_blocking(), st['mode']]
+        if kind in ('badget', 'badset', 'qbadset'):
+            # a name that is not a solver property: the dispatcher rejects
+            # it; what matters is that it leaves no lock held
+            try:
+                if kind == 'badget':
+                    ctrl.get('no_such_property')
+                else:
+                    ctrl.set('no_such_property', 1)
+            except S.SchedAbort:
+                raise
+            except Exception as ex:
+                return ['rejected', type(ex).__name__]
+            return ['accepted']
+        if kind == 'pause':
+            return ctrl.pause_on_next()
+        if kind == 'wait':
+            return ctrl.wait()
+        if kind == 'cont':
+            return ctrl.cont()
+        raise ValueError(kind)
 
     def make_body(i, ops):
         name = 'I%d' % i
@@ -238,37 +490,12 @@ def run_one(case):
             me = sc.me()
             me.name, me.role = name, 'interface'
             myq = []
+            st = dict(name=name, mode=bool(block0[i]))
             for k, op in enumerate(ops):
                 kind = op[0]
                 log('call', k=k, op=op)
                 try:
-                    if kind == 'get':
-                        r = ctrl.get(op[1])
-                    elif kind == 'set':
-                        ctrl.set_blocking(True)
-                        r = ctrl.set(op[1], op[2])
-                    elif kind == 'qset':
-                        ctrl.set_blocking(False)
-                        r = ctrl.set(op[1], op[2])
-                    elif kind == 'qnames':
-                        ctrl.set_blocking(False)
-                        r = ctrl.get_particle_array_names()
-                    elif kind == 'qgnpa':
-                        ctrl.set_blocking(False)
-                        r = ctrl.get_named_particle_array(op[1], [op[2]])
-                    elif kind == 'result':
-                        r = ctrl.get_result(myq[op[1]])
-                        fetched.add((name, op[1]))
-                    elif kind == 'status':
-                        r = ctrl.get_status()
-                    elif kind == 'pause':
-                        r = ctrl.pause_on_next()
-                    elif kind == 'wait':
-                        r = ctrl.wait()
-                    elif kind == 'cont':
-                        r = ctrl.cont()
-                    else:
-                        raise ValueError(kind)
+                    r = do_op(ctrl, op, myq, st)
                 except S.SchedAbort:
                     raise
                 except Exception as ex:
@@ -277,23 +504,43 @@ def run_one(case):
                     log('exc', k=k, op=op, exc=type(ex).__name__)
                     sc._abort('exception')
                     raise S.SchedAbort()
-                if kind in ('qset', 'qnames', 'qgnpa'):
+                if kind in QKINDS:
                     ids[(name, len(myq))] = r
                     myq.append(r)
-                log('ret', k=k, op=op, val=r)
-        return body
+                log('ret', k=k, op=op, val=canon_value(r))
+        if not xml[i]:
+            return body
+
+        def serve(ctrl):
+            # what Application does for --xml-rpc: add_interface(
+            # XMLRPCInterface(addr).start); the socket is never bound and
+            # the request loop is replaced by the program of this thread
+            from pysph.solver.solver_interfaces import XMLRPCInterface
+            srv = XMLRPCInterface(('127.0.0.1', 0), logRequests=False,
+                                  bind_and_activate=False)
+            srv.serve_forever = lambda *a, **k: body(RpcProxy(srv, sc))
+            try:
+                srv.start(ctrl)
+            finally:
+                srv.server_close()
+        return serve
+
+    pending = sorted(range(len(ifaces)), key=lambda i: (late[i], i))
 
     def all_done():
-        return all(t.state == S.FINISHED for t in ithreads)
+        return not pending and \
+            all(t.state == S.FINISHED for t in ithreads)
 
     def all_stuck():
-        return all(t.state in (S.FINISHED, S.BLOCKED) for t in ithreads)
+        return not pending and \
+            all(t.state in (S.FINISHED, S.BLOCKED) for t in ithreads)
 
-    def solver_body():
-        me = sc.me()
-        for i, ops in enumerate(ifaces):
+    def add_due(n):
+        while pending and late[pending[0]] <= n:
+            i = pending.pop(0)
             try:
-                t = cm.add_interface(make_body(i, ops), True)
+                t = cm.add_interface(make_body(i, ifaces[i]),
+                                     bool(block0[i]))
             except S.SchedAbort:
                 raise
             except Exception as ex:
@@ -303,13 +550,23 @@ def run_one(case):
                 raise S.SchedAbort()
             t.name, t.role = 'I%d' % i, 'interface'
             ithreads.append(t)
+
+    def solver_body():
+        me = sc.me()
+        add_due(0)
         n = 0
         idle = 0
+        skipped = 0
         last = sc.activity_except(me)
         while True:
             sc.yield_()
             log('step')
             solver.__dict__['count'] += 1
+            # what Solver.solve does with the handler
+            if solver.count % solver.command_interval != 0 and skipped < 3:
+                skipped += 1
+                continue
+            skipped = 0
             done = all_done()
             log('cp_enter', n=n)
             try:
@@ -325,6 +582,7 @@ def run_one(case):
             n += 1
             if done and n >= case['min_cp']:
                 break
+            add_due(n)
             act = sc.activity_except(me)
             if act == last and all_stuck() and not all_done():
                 idle += 1
@@ -347,7 +605,7 @@ def run_one(case):
                                       exc=type(ex).__name__, msg=str(ex)))
                     sc._abort('exception')
                     raise S.SchedAbort()
-                log('drain_ret', key=list(key), val=r)
+                log('drain_ret', key=list(key), val=canon_value(r))
 
     sleepers = []
 
@@ -427,9 +685,20 @@ def analyse(run):
     F = lambda kind, detail, **kl: fails.append(  # noqa
         Failure(COMPONENT, kind, detail, kl))
     complete = run.status == 'ok'
+    n_if = len(case['ifaces'])
     labels.append('status:' + run.status)
     labels.append('tail:' + case.get('tail', 'rr'))
-    labels.append('threads:%d' % len(case['ifaces']))
+    labels.append('threads:%d' % n_if)
+    if int(case.get('interval', 1)) > 1:
+        labels.append('interval>1')
+    if not all(case.get('block0', [True] * n_if)):
+        labels.append('block0:false')
+    if any(case.get('late', [0] * n_if)):
+        labels.append('late_iface')
+    for x in case.get('excluded', []):
+        labels.append('excluded:' + x)
+    if any(case.get('xmlrpc', [])):
+        labels.append('xmlrpc_iface')
     for ops in case['ifaces']:
         for op in ops:
             labels.append('op:' + op[0])
@@ -466,7 +735,9 @@ def analyse(run):
     calls = {}                  # (th, k) -> call event
     rets = {}
     s_marks = []                # (idx, type) of S step / cp_enter / cp_exit
-    pr_outside = 0
+    pr_events = []              # particles_read
+    dump_events = []
+    open_call = {}              # th -> op of the call it is inside
     for e in ev:
         t = e['type']
         if t == 'cp_enter':
@@ -482,20 +753,22 @@ def analyse(run):
             sets_by_val.setdefault((e['name'], e['val']), []).append(e)
             if e['th'] == 'S':
                 execs.append(e['i'])
-        elif t == 'particles_read':
+        elif t in ('particles_read', 'dump'):
+            (pr_events if t == 'particles_read' else dump_events).append(e)
+            e['within'] = open_call.get(e['th'])
             if e['th'] == 'S':
                 execs.append(e['i'])
-            if e['th'] != 'S' or depth != 1:
-                pr_outside += 1
         elif t == 'pa_attr':
             tok_events.setdefault((e['pa'], e['attr']), []).append(e)
         elif t == 'call':
             calls[(e['th'], e['k'])] = e
-            if e['op'][0] in ('qset', 'qnames', 'qgnpa'):
+            open_call[e['th']] = e['op'][0]
+            if e['op'][0] in QKINDS:
                 invoked.append(e['i'])
         elif t == 'ret':
             rets[(e['th'], e['k'])] = e
-            if e['op'][0] in ('qset', 'qnames', 'qgnpa'):
+            open_call[e['th']] = None
+            if e['op'][0] in QKINDS:
                 returned.append(e['i'])
         cp_of[e['i']] = depth == 1
 
@@ -510,11 +783,26 @@ def analyse(run):
                 last = t
         return last == 'cp_enter'
 
-    if pr_outside:
-        F('command_outside_control_point', 'a queued array command ran '
-          'outside execute_commands or in an interface thread', cmd='lazy')
+    # a queued array / dump command runs in the solver thread inside a
+    # control point; the same command in blocking mode runs inside the call
+    for e in pr_events:
+        ok = (e['th'] == 'S' and cp_of[e['i']]) or \
+            (e['th'] != 'S' and e['within'] in BLAZY)
+        if not ok:
+            F('command_outside_control_point', 'an array command ran in '
+              'thread %s (inside control point: %s, inside call: %s)' % (
+                  e['th'], cp_of[e['i']], e['within']), cmd='lazy')
+            break
+    for e in dump_events:
+        ok = (e['th'] == 'S' and cp_of[e['i']]) or \
+            (e['th'] != 'S' and e['within'] == 'dump')
+        if not ok:
+            F('command_outside_control_point', 'dump_output ran in thread '
+              '%s (inside control point: %s, inside call: %s)' % (
+                  e['th'], cp_of[e['i']], e['within']), cmd='dump')
+            break
 
-    n_lazy = 0
+    n_lazy = n_qdump = 0
     cmd_while_paused = False
     pause_windows = []          # (th, wait_ret idx or None, cont_call idx)
     for i, ops in enumerate(case['ifaces']):
@@ -526,16 +814,18 @@ def analyse(run):
             kind = op[0]
             if c is None:
                 break
-            if kind in ('qset', 'qnames', 'qgnpa'):
+            if kind in QKINDS:
                 q.append((k, op))
-                if kind != 'qset':
+                if kind in QLAZY:
                     n_lazy += 1
+                if kind == 'qdump':
+                    n_qdump += 1
                 if r is not None:
                     v = r['val']
                     if not (isinstance(v, str) and v.lstrip('-').isdigit()):
                         F('task_id', 'non-blocking %s returned %r, not a '
                           'task id' % (kind, v))
-            if kind == 'qset':
+            if kind in ('qset', 'qsetn'):
                 xs = sets_by_val.get((op[1], op[2]), [])
                 if len(xs) > 1:
                     F('duplicate_command', 'queued set %s=%r executed %d '
@@ -552,7 +842,7 @@ def analyse(run):
                           '%s=%r ran in thread %s, inside control point: %s'
                           % (op[1], op[2], x['th'], cp_of[x['i']]),
                           cmd='qset')
-            elif kind == 'qgnpa':
+            elif kind == 'qgnpa' and op[1] != 'zz' and op[2] is not None:
                 xs = tok_events.get((op[1], op[2]), [])
                 if len(xs) > 2:
                     F('duplicate_command', 'queued array query %s executed '
@@ -574,7 +864,28 @@ def analyse(run):
                       'expected %r' % (qop, th, r['val'], exp), cmd=qop[0])
                 if blk is not None:
                     labels.append('result_in_pause_block')
-            elif kind == 'get' and r is not None:
+            elif kind == 'tasklock' and r is not None:
+                qk, qop = q[op[1]]
+                v = r['val']
+                if v[0] != 'lock':
+                    F('task_lock', 'get_task_lock returned %r' % (v[1],))
+                elif v[1]:
+                    # the lock is free: the docs say the result is available
+                    labels.append('tasklock:available')
+                    xs = None
+                    if qop[0] in ('qset', 'qsetn'):
+                        xs = sets_by_val.get((qop[1], qop[2]), [])
+                    elif qop[0] == 'qgnpa' and qop[1] != 'zz' and \
+                            qop[2] is not None:
+                        xs = tok_events.get((qop[1], qop[2]), [])
+                    if xs is not None and \
+                            not any(x['i'] < r['i'] for x in xs):
+                        F('task_lock', 'the task lock of %s of %s was free '
+                          'before the command had been executed' % (qop, th),
+                          cmd=qop[0])
+                else:
+                    labels.append('tasklock:pending')
+            elif kind in ('get', 'getn') and r is not None:
                 cand = set()
                 v0 = cur_at(hist, op[1], c['i'], cur)
                 cand.add(v0)
@@ -585,7 +896,7 @@ def analyse(run):
                     F('get_value', 'get(%s) returned %r; the property held '
                       '%r during the call' % (op[1], r['val'], sorted(
                           cand, key=repr)))
-            elif kind == 'set' and r is not None:
+            elif kind in ('set', 'setn') and r is not None:
                 xs = sets_by_val.get((op[1], op[2]), [])
                 ok = len(xs) == 1 and xs[0]['th'] == th and \
                     c['i'] < xs[0]['i'] < r['i']
@@ -593,6 +904,45 @@ def analyse(run):
                     F('set_effect', 'blocking set(%s,%r) by %s: %d '
                       'assignments %r' % (op[1], op[2], th, len(xs),
                                           [(x['th'], x['i']) for x in xs]))
+            elif kind == 'setci' and r is not None:
+                xs = [x for x in sets_by_val.get(('command_interval', op[1]),
+                                                 [])
+                      if x['th'] == th and c['i'] < x['i'] < r['i']]
+                if len(xs) != 1:
+                    F('set_effect', 'blocking set(command_interval,%r) by '
+                      '%s: %d assignments inside the call' % (
+                          op[1], th, len(xs)))
+            elif kind in ('dump', 'bnames', 'bgnpa') and r is not None:
+                exp = expected_result(op)
+                if r['val'] != exp:
+                    F('wrong_result', 'blocking %s of %s returned %r, '
+                      'expected %r' % (op, th, r['val'], exp), cmd=kind)
+                src = dump_events if kind == 'dump' else pr_events
+                xs = [x for x in src
+                      if x['th'] == th and c['i'] < x['i'] < r['i']]
+                if len(xs) != 1:
+                    F('blocking_effect', 'blocking %s of %s: executed %d '
+                      'times inside the call' % (op, th, len(xs)), cmd=kind)
+            elif kind in ('badget', 'badset', 'qbadset') and r is not None:
+                # no promise on how an unknown property is refused; the
+                # point is that the next calls still work
+                labels.append('unknown_prop:' + r['val'][0])
+            elif kind == 'getblk' and r is not None:
+                if r['val'][0] is not r['val'][1]:
+                    F('blocking_mode', 'get_blocking() returned %r, the '
+                      'mode last set is %r' % tuple(r['val']))
+            elif kind == 'listmethods' and r is not None:
+                miss = [m for m in DOCUMENTED_METHODS if m not in r['val']]
+                if miss:
+                    F('misc_return', 'system.listMethods of the XML-RPC '
+                      'interface lacks %r' % (miss,))
+            elif kind == 'ping' and r is not None:
+                if r['val'] is not True:
+                    F('misc_return', 'ping() returned %r' % (r['val'],))
+            elif kind == 'propnames' and r is not None:
+                if not set(PROPS + ('command_interval',)) <= set(r['val']):
+                    F('misc_return', 'get_prop_names() returned %r' % (
+                        r['val'],))
             elif kind == 'status' and r is not None:
                 v = r['val']
                 ok = isinstance(v, str) and v.startswith('commands queued: ')
@@ -613,13 +963,17 @@ def analyse(run):
                     F('status', 'get_status returned %r' % (v,))
             elif kind == 'pause':
                 blk = dict(pause_ret=r['i'] if r else None, wait_call=None,
-                           wait_ret=None, pause_step=r['step'] if r else None)
+                           wait_ret=None, pause_step=r['step'] if r else None,
+                           waits=0)
                 if r is not None and r['val'] is not True:
                     F('pause_return', 'pause_on_next returned %r' % (
                         r['val'],))
             elif kind == 'wait':
                 labels.append('wait_called')
-                if blk['pause_step'] is not None:
+                blk['waits'] += 1
+                if blk['waits'] > 1:
+                    labels.append('wait_twice')
+                if blk['pause_step'] is not None and blk['waits'] == 1:
                     # up to the moment this thread's wait() registers on
                     # the condition (or returns without having to)
                     end = r['step'] if r is not None else len(sc.order)
@@ -631,7 +985,8 @@ def analyse(run):
                     if any(x != th for x in between):
                         labels.append('nt:switch_pause_wait')
                 if r is not None:
-                    blk['wait_ret'] = r['i']
+                    if blk['wait_ret'] is None:
+                        blk['wait_ret'] = r['i']
                     if r['val'] is not True:
                         F('wait_return', 'wait returned %r' % (r['val'],))
                     if not in_cp_at(r['i']):
@@ -662,6 +1017,11 @@ def analyse(run):
                               'left (event %d) before cont() (event %d)' % (
                                   th, j, ex[0], c['i']))
                             break
+                    if any(t == 'step' and pr < j < c['i']
+                           and not any(tt == 'cp_enter' and jj == j + 1
+                                       for (jj, tt) in s_marks)
+                           for (j, t) in s_marks):
+                        labels.append('step_without_cp_in_pause_block')
                 pause_windows.append((th, pr, c['i']))
                 if blk['wait_ret'] is None and not any(
                         o[0] == 'wait' for o in _block_ops(ops, k)):
@@ -670,20 +1030,26 @@ def analyse(run):
     if cmd_while_paused:
         labels.append('cmd_run_while_paused')
     # lazy commands: one read of solver.particles each
-    n_pr = sum(1 for e in ev if e['type'] == 'particles_read'
-               and e['th'] == 'S')
+    n_pr = sum(1 for e in pr_events if e['th'] == 'S')
     if n_pr > n_lazy:
         F('duplicate_command', '%d queued array commands but solver.'
           'particles was read %d times' % (n_lazy, n_pr), cmd='lazy')
     if complete and n_pr < n_lazy:
         F('lost_command', '%d queued array commands but solver.particles '
           'was read %d times' % (n_lazy, n_pr), cmd='lazy')
+    n_dump = sum(1 for e in dump_events if e['th'] == 'S')
+    if n_dump > n_qdump:
+        F('duplicate_command', '%d queued dump_output commands but the '
+          'solver dumped %d times' % (n_qdump, n_dump), cmd='qdump')
+    if complete and n_dump < n_qdump:
+        F('lost_command', '%d queued dump_output commands but the solver '
+          'dumped %d times' % (n_qdump, n_dump), cmd='qdump')
     # drained results
     for e in ev:
         if e['type'] == 'drain_ret':
             th, qi = e['key']
             qops = [op for op in case['ifaces'][int(th[1:])]
-                    if op[0] in ('qset', 'qnames', 'qgnpa')]
+                    if op[0] in QKINDS]
             exp = expected_result(qops[qi])
             if e['val'] != exp:
                 F('wrong_result', 'result of %s of %s (fetched after the '
@@ -728,70 +1094,136 @@ def check(case):
 
 
 # ------------------------------------------------------------ generation
+CORE_OPS = ['get', 'set', 'status', 'qset', 'qnames', 'qgnpa']
+# calls of the Controller API beyond the core protocol
+EXTRA_OPS = ['getn', 'setn', 'qsetn', 'qdump', 'dump', 'qprocs', 'qcomb',
+             'bnames', 'bgnpa', 'ping', 'propnames', 'getblk', 'badget',
+             'badset', 'qbadset', 'setci']
+
+
 @st.composite
-def program_strategy(draw, max_total=12, max_per=6):
-    nthr = draw(st.sampled_from([1, 2, 2]))
+def program_strategy(draw, max_total=12, max_per=6, rich=True,
+                     max_threads=MAX_IFACES):
+    nthr = draw(st.sampled_from(
+        [1, 2, 2, 2, 2, min(3, max_threads)] if rich else [1, 2, 2]))
     ifaces = []
+    xml = []
     total = 0
+    excluded = set()
     for i in range(nthr):
         room = max_total - total - (nthr - 1 - i)
         n = draw(st.integers(1, max(1, min(max_per, room))))
         ops = []
-        paused = waited = False
+        paused = False
+        waits = 0
         nq = 0
         fetched = []
+        isxml = rich and draw(st.sampled_from([False, False, False, True]))
+        xml.append(isxml)
         while len(ops) < n:
-            ch = ['get', 'set', 'status', 'qset', 'qnames', 'qgnpa']
+            ch = list(CORE_OPS)
+            if rich:
+                ch += CORE_OPS + EXTRA_OPS
+            if isxml:
+                ch = [c for c in ch if c not in NOT_MARSHALLABLE]
+                ch.append('listmethods')
             if nq - len(fetched) > 0:
-                ch += ['result'] * 3
+                ch += ['result'] * (8 if rich else 3)
+                if rich and not isxml:
+                    ch += ['tasklock'] * 2
             if not paused:
                 if len(ops) + 2 <= n:
-                    ch += ['pause'] * 4
+                    ch += ['pause'] * (12 if rich else 4)
             else:
-                ch += ['cont'] * 2
-                if not waited and len(ops) + 2 <= n:
-                    ch += ['wait'] * 4
+                ch += ['cont'] * (6 if rich else 2)
+                if len(ops) + 2 <= n:
+                    if waits == 0:
+                        ch += ['wait'] * (24 if rich else 4)
+                    elif rich:
+                        ch += ['wait'] * 3
                 if len(ops) + 1 >= n:
                     ch = ['cont']
             kind = draw(st.sampled_from(ch))
             val = 100 * (i + 1) + len(ops)
-            if kind == 'get':
-                ops.append(['get', draw(st.sampled_from(PROPS))])
-            elif kind in ('set', 'qset'):
+            if kind in ('get', 'getn'):
+                ops.append([kind, draw(st.sampled_from(PROPS))])
+            elif kind in ('set', 'qset', 'setn', 'qsetn'):
                 ops.append([kind, draw(st.sampled_from(PROPS)), val])
-            elif kind == 'qnames':
-                ops.append(['qnames'])
-            elif kind == 'qgnpa':
-                ops.append(['qgnpa', draw(st.sampled_from(['a', 'b'])),
-                            'p%d' % val])
-            elif kind == 'result':
+            elif kind == 'setci':
+                ops.append(['setci', draw(st.sampled_from([1, 2, 3]))])
+            elif kind in ('qgnpa', 'bgnpa'):
+                if rich:
+                    nm = draw(st.sampled_from(['a', 'b', 'a', 'b', 'zz']))
+                    pr = draw(st.sampled_from(['p', 'p', 'p', None]))
+                    if isxml and nm != 'zz':
+                        pr = 'p'
+                else:
+                    nm = draw(st.sampled_from(['a', 'b']))
+                    pr = 'p'
+                ops.append([kind, nm, None if pr is None else 'p%d' % val])
+            elif kind in ('dump', 'qdump') and 'solver_method' in EXCLUDED:
+                # nearest working call: the same array command class /
+                # a blocking call of another kind
+                excluded.add('solver_method')
+                kind = 'qnames' if kind == 'qdump' else 'bnames'
+                ops.append([kind])
+            elif kind in ('qprocs', 'qcomb'):
+                op = [kind] + ([draw(st.sampled_from([0, 1]))]
+                               if kind == 'qprocs' else [])
+                if draw(st.sampled_from([False, True])):
+                    if 'default_procs' in EXCLUDED:
+                        excluded.add('default_procs')
+                    else:
+                        op.append('default')
+                ops.append(op)
+            elif kind in ('result', 'tasklock'):
                 free = [j for j in range(nq) if j not in fetched]
                 j = draw(st.sampled_from(free))
-                fetched.append(j)
-                ops.append(['result', j])
+                if kind == 'result':
+                    fetched.append(j)
+                ops.append([kind, j])
             elif kind == 'pause':
-                paused, waited = True, False
+                paused, waits = True, 0
                 ops.append(['pause'])
             elif kind == 'wait':
-                waited = True
+                waits += 1
                 ops.append(['wait'])
             elif kind == 'cont':
                 paused = False
                 ops.append(['cont'])
             else:
-                ops.append(['status'])
-            if kind in ('qset', 'qnames', 'qgnpa'):
+                ops.append([kind])
+            if kind in QKINDS:
                 nq += 1
         if paused:
             ops.append(['cont'])
         total += len(ops)
         ifaces.append(ops)
-    return dict(min_cp=draw(st.integers(1, 6)), ifaces=ifaces)
+    prog = dict(min_cp=draw(st.integers(1, 6)), ifaces=ifaces)
+    if rich:
+        # defaults first: Hypothesis shrinks towards them
+        b0 = [draw(st.sampled_from([True, True, False]))
+              for _ in range(nthr)]
+        if not all(b0):
+            prog['block0'] = b0
+        late = [0] * nthr
+        if draw(st.sampled_from([False, False, True])):
+            late = [draw(st.sampled_from([0, 1, 2, 3])) for _ in range(nthr)]
+        if any(late):
+            prog['late'] = late
+        iv = draw(st.sampled_from([1, 1, 1, 2, 3]))
+        if iv != 1:
+            prog['interval'] = iv
+    if any(xml):
+        prog['xmlrpc'] = xml
+    if excluded:
+        prog['excluded'] = sorted(excluded)
+    return prog
 
 
 @st.composite
-def case_strategy(draw):
-    prog = draw(program_strategy())
+def case_strategy(draw, rich=True):
+    prog = draw(program_strategy(rich=rich))
     prog['schedule'] = draw(st.lists(st.integers(0, 5), max_size=80))
     prog['tail'] = draw(st.sampled_from(['rr', 'stay']))
     return prog
@@ -850,8 +1282,7 @@ def dfs(prog, bound, cap, on_run):
             return runs, False
         cost, _, parent, i, alt = heapq.heappop(heap)
         prefix = list(parent[:i]) + ([alt] if alt is not None else [])
-        case = dict(min_cp=prog['min_cp'], ifaces=prog['ifaces'],
-                    schedule=prefix, tail='stay')
+        case = dict(prog, schedule=prefix, tail='stay')
         res = check(case)
         runs += 1
         run = res[4]
@@ -872,7 +1303,7 @@ def dfs(prog, bound, cap, on_run):
     return runs, True
 
 
-def run_dfs_program(prog, bound, cap, known, stats, stop=None):
+def run_dfs_program(prog, bound, cap, known, stats, stop=None, name=None):
     """DFS over one program, recording every execution in stats; returns the
     list of (Failure, concrete case) that are not known findings.  `stop`
     (a set of masked signatures) ends the enumeration at the first failure
@@ -899,6 +1330,8 @@ def run_dfs_program(prog, bound, cap, known, stats, stop=None):
     runs, complete = dfs(prog, bound, cap, on_run)
     if complete:
         stats.label('dfs:complete')
+        if name:
+            stats.label('dfs:complete:' + name)
     elif runs >= cap:
         stats.label('dfs:truncated')
     else:
@@ -910,11 +1343,19 @@ def run_dfs_program(prog, bound, cap, known, stats, stop=None):
 # ------------------------------------------------------------------ driver
 # canonical programs: preemption bound per tier (two-interface programs have
 # far more schedules; one run is ~2 ms)
+CANON_BOUND_DOC = 'preemption bound per canonical program: (quick, thorough)'
 CANON_BOUND = {
-    'pause-wait-cont': (3, 4), 'pause-cont': (3, 4), 'queue-result': (3, 4),
-    'paused-queue-result': (3, 4), 'two-queues': (1, 2),
-    'two-pauses': (1, 3), 'two-waits': (1, 2), 'pause-vs-queue': (1, 3),
+    'pause-wait-cont': (4, 5), 'pause-cont': (4, 5), 'queue-result': (4, 5),
+    'paused-queue-result': (4, 4), 'two-queues': (1, 2),
+    'two-pauses': (2, 3), 'two-waits': (2, 2), 'pause-vs-queue': (2, 3),
+    'pause-twice': (3, 4), 'wait-wait': (4, 5), 'tasklock-poll': (4, 5),
+    'interval-pause': (3, 4), 'nonblocking-late': (1, 2),
+    'three-waits': (0, 1),
 }
+
+
+ESSENTIAL_LABELS['quick'] = _ESS + ['dfs:complete:' + _n
+                                    for _n in sorted(CANON_BOUND)]
 
 
 def plan(ctx):
@@ -922,20 +1363,23 @@ def plan(ctx):
              for e in ctx.get('known_open', [])]
     quick = ctx['tier'] == 'quick'
     specs = []
-    n = 6400 if quick else 1000000
+    n = 12800 if quick else 1000000
     k = 16
     for i in range(k):
-        specs.append(dict(name='rand-%02d' % i, mode='rand',
+        # even shards: the core protocol only (dense in pause / wait / cont
+        # / queue / result); odd shards: the whole Controller API, 1-3
+        # interfaces, non-blocking and late interfaces, command_interval
+        specs.append(dict(name='rand-%02d' % i, mode='rand', rich=i % 2,
                           max_examples=n // k, known=known))
     for nm in sorted(CANON):
         specs.append(dict(name='dfs-canon-' + nm, mode='dfs-canon',
                           program=nm, bound=CANON_BOUND[nm][0 if quick else 1],
-                          cap=4000 if quick else 400000, known=known))
+                          cap=80000 if quick else 400000, known=known))
     if not quick:
         for i in range(16):
             specs.append(dict(name='dfs-rand-%02d' % i, mode='dfs-rand',
-                              max_examples=12, bound=3, cap=30000,
-                              known=known))
+                              rich=i % 2, max_examples=12, bound=3,
+                              cap=30000, known=known))
     for i, s in enumerate(specs):
         s['cpu'] = i
     return specs
@@ -957,12 +1401,14 @@ def run_shard(spec, ctx):
     known = spec.get('known') or []
     seed = derive_seed(ctx.seed, 'C18', spec['name'])
     if spec['mode'] == 'rand':
-        search(case_strategy(), make_execute(known, stats), seed,
+        search(case_strategy(rich=bool(spec.get('rich', 0))),
+               make_execute(known, stats), seed,
                spec['max_examples'], stats, shrink=True)
     elif spec['mode'] == 'dfs-canon':
         prog = CANON[spec['program']]
         new, runs, complete = run_dfs_program(prog, spec['bound'],
-                                              spec['cap'], known, stats)
+                                              spec['cap'], known, stats,
+                                              name=spec['program'])
         for f, full in new:
             if f.sig() not in stats.masked:
                 stats.masked.add(f.sig())
@@ -994,7 +1440,9 @@ def run_shard(spec, ctx):
             if len(side['samples']) < 2:
                 side['samples'].extend(sub.samples[:1])
             return Outcome(fails, labs, False)
-        search(program_strategy(max_total=8, max_per=5), execute, seed,
+        search(program_strategy(max_total=8, max_per=5, max_threads=2,
+                                rich=bool(spec.get('rich', 0))),
+               execute, seed,
                spec['max_examples'], stats, shrink=True)
         # what was executed are the (program, schedule) runs
         stats.extra['dfs_programs'] = stats.evaluations
